@@ -15,7 +15,7 @@
 (* compare an integer with a string).                                      *)
 (*                                                                         *)
 (* Two families of cases:                                                  *)
-(*  "bind"  one task from a callable with <= MaxP parameters, with_values  *)
+(*  "bind"  one task from a callable with <= MaxPB parameters, with_values *)
 (*          with a positional prefix and a keyword subset of the remaining *)
 (*          parameters (in one call, or split over two calls), then a      *)
 (*          one-task job;                                                  *)
@@ -26,15 +26,18 @@
 (***************************************************************************)
 EXTENDS Naturals, Sequences, FiniteSets, TLC, Json, IOUtils, SequencesExt
 
-CONSTANTS MaxP,       \* parameters per callable: 0..MaxP
-          MaxP2       \* two-edge cases use sink signatures with up to MaxP2 parameters
+CONSTANTS MaxP,       \* "edge" cases: the consumer has 0..MaxP parameters
+          MaxP2,      \* two-edge cases use consumers with up to MaxP2 parameters
+          MaxPB,      \* "bind" cases: callables with 0..MaxPB parameters, defaults absent/5/'d'
+          MaxPB0,     \* "bind" cases: additionally callables with up to MaxPB0 parameters, none with a default
+          NVals       \* 2 or 3 distinct values to bind
 
 \* ---------------------------------------------------------------- domain
 PNames == <<"a", "b", "c">>
 Anns == {"", "int", "str"}
 NoVal == [t |-> "none", v |-> ""]
 DefaultVals == {[t |-> "int", v |-> "5"], [t |-> "str", v |-> "d"]}
-GivenVals == {[t |-> "int", v |-> "1"], [t |-> "str", v |-> "kv"]}
+GivenVals == {[t |-> "int", v |-> "1"], [t |-> "str", v |-> "kv"]} \cup (IF NVals >= 3 THEN {[t |-> "str", v |-> "v"]} ELSE {})
 
 \* a parameter list is valid Python: positional-or-keyword before keyword-only; among positional-or-keyword no parameter
 \* without default after one with default
@@ -51,10 +54,12 @@ RECURSIVE ValSeqs(_)
 ValSeqs(n) == IF n = 0 THEN {<<>>} ELSE {Append(s, v) : s \in ValSeqs(n - 1), v \in GivenVals}
 \* keyword bindings for the parameters after the positional prefix: each absent (NoVal) or given
 KwChoices(ps, k) == [{ps[i].name : i \in (k + 1)..Len(ps)} -> GivenVals \cup {NoVal}]
-BindOf(ps) == UNION {{[kind |-> "bind", params |-> ps, ret |-> r, args |-> args, kw |-> kw, split |-> sp]
-                        : args \in ValSeqs(k), kw \in KwChoices(ps, k), r \in {"", "int"},
-                          sp \in (IF k > 0 THEN {FALSE, TRUE} ELSE {FALSE})} : k \in 0..NPk(ps)}
-Bind == UNION {BindOf(ps) : ps \in ParamLists(MaxP, DefaultVals \cup {NoVal})}
+\* the return annotation only shows in the schema: both variants when nothing is bound, absent otherwise
+Rets(args, kw) == IF args = <<>> /\ \A nm \in DOMAIN kw : kw[nm] = NoVal THEN {"", "int"} ELSE {""}
+BindOf(ps) == UNION {UNION {{[kind |-> "bind", params |-> ps, ret |-> r, args |-> args, kw |-> kw, split |-> sp]
+                               : r \in Rets(args, kw), sp \in (IF k > 0 THEN {FALSE, TRUE} ELSE {FALSE})}
+                              : args \in ValSeqs(k), kw \in KwChoices(ps, k)} : k \in 0..NPk(ps)}
+Bind == UNION {BindOf(ps) : ps \in ParamLists(MaxPB, DefaultVals \cup {NoVal}) \cup ParamLists(MaxPB0, {NoVal})}
 
 EdgeShapes == {[st |-> st, so |-> so, dt |-> dt, mode |-> m[1], into |-> m[2]]
                  : st \in {"t1", "nope"}, so \in {"0", "zz"}, dt \in {"t2", "nope"},
@@ -172,11 +177,14 @@ PostBind(c, r) ==
 Post(c, r) == IF c.kind = "bind" THEN PostBind(c, r) ELSE PostEdge(c, r)
 
 \* ---------------------------------------------------------------- the two TLC passes
-Generate == LET b == SetToSeq(Bind)
-                s == [i \in 1..Len(b) |-> BindJson(b[i])] \o SetToSeq(Edge1) \o SetToSeq(Edge2)
-            IN JsonSerialize(IOEnv.CASES_FILE, s)
+\* TLC evaluates every constant-level definition when it loads the module, also the one a pass does not use: the judge
+\* pass therefore gets CASES_FILE = "none" (Generate does nothing) and reads the cases from JUDGE_CASES
+Generate == IF IOEnv.CASES_FILE = "none" THEN TRUE ELSE
+            LET b == SetToSeq(Bind)
+                  s == [i \in 1..Len(b) |-> BindJson(b[i])] \o SetToSeq(Edge1) \o SetToSeq(Edge2)
+              IN JsonSerialize(IOEnv.CASES_FILE, s)
 Judge ==
-  LET cs == JsonDeserialize(IOEnv.CASES_FILE)
+  LET cs == JsonDeserialize(IOEnv.JUDGE_CASES)
       rs == JsonDeserialize(IOEnv.RESULTS_FILE)
   IN \A i \in DOMAIN cs :
        LET bad == IF "error" \in DOMAIN rs[i] THEN {"harness_could_not_build"} ELSE Post(cs[i], rs[i])
